@@ -116,7 +116,7 @@ theorem contract_refined_file_burst_partial (fs0 : FS) (hwf : fs0.WF) (full : Bo
     is left out -/
 theorem created_once_growth_burst_partial (fs0 : FS) (hwf : fs0.WF) (full : Bool) (pre burst : List Op)
     (hv : allValid (Sys.start fs0 true full) pre = true) (hroot : Op.rmdir ["W"] ∉ pre)
-    (hb : allGrow ((Sys.start fs0 true full).run pre).1.fs burst = true) :
+    (hb : allFill ((Sys.start fs0 true full).run pre).1.fs burst = true) :
     ((createdOf (((Sys.start fs0 true full).run pre).1.burst burst).2).map (·.1)).Nodup ∧
     ∀ x, x ∈ createdOf (((Sys.start fs0 true full).run pre).1.burst burst).2 ↔
       ∃ e ∈ (((Sys.start fs0 true full).run pre).1.burst burst).1.fs.ents,
